@@ -3,6 +3,8 @@ CONSTANTS
   MaxCands = 2
   NFill = 2
   Layouts = {"one", "two-second"}
+  MaxAttempts = 3
+  RetryRaw = FALSE
 SPECIFICATION Spec
 INVARIANTS ImplConforms ImplNoLocalHostLeft ImplIdempotent KeepLocalConforms ContractBites RangesAreMasks
 CHECK_DEADLOCK FALSE
